@@ -5,7 +5,7 @@ PROPERTY = "C05"
 
 
 def tasks(tier):
-    return ((contract_tasks("contracts.scheduler", "C05", tier=tier) + contract_tasks("contracts.sim_process", "C05", tier=tier)
+    return (contract_tasks("contracts.runner_init", "C05") + (contract_tasks("contracts.scheduler", "C05", tier=tier) + contract_tasks("contracts.sim_process", "C05", tier=tier)
             + contract_tasks("contracts.progress", "C05", tier=tier) + lemma_tasks("contracts.progress", "C05"))
             + contract_tasks("contracts.run_prelude", "C05", tier=tier)
             # ('incomparable delays' is one of the internal errors C05 names: the order on delays and its use in update_min)
